@@ -41,7 +41,7 @@ class Generate:
         }
 
 
-@contract(MG + "._convert", props=["C13", "C17", "C01"])
+@contract(MG + "._convert", props=["C13", "C17", "C01", "C11", "C07"])
 class Convert:
     """C13: an object becomes a model with exactly its keys; the dict-keys-fields option applies to the direct value of a
     named field only; C17: a non-string key is an error (TypeError)."""
@@ -73,7 +73,7 @@ def convert_loop(self, data, fields, _it, _seq):
     }
 
 
-@contract(MG + "._detect_type", props=["C13", "C09"])
+@contract(MG + "._detect_type", props=["C13", "C09", "C07"])
 class DetectType:
     """C13: an object becomes Dict[str, T] exactly when it is empty, or conversion is disabled for this field, or all of its keys
     match one of the dict-key regexes; every other object becomes a model.  C09: a string is classified as the FIRST registered
